@@ -199,7 +199,7 @@ def _shake(rng, t):
 
 
 def rnd_ldap(rng, specs):
-    schema = rng.choice(['partition', 'cellalloc', 'app'])
+    schema = rng.choice(['partition', 'cellalloc', 'app', 'server', 'cell'])
     pairs = []
     for f in specs[schema]:
         if rng.random() < 0.55:
@@ -227,7 +227,7 @@ def rnd_ldapupd(rng, specs, extra):
     both sides; one key changes between two of its variants (specification
     variants, the update variants, shaken lists) or only in letter case; now
     and then a key exists on one side only."""
-    schema = rng.choice(['partition', 'cellalloc', 'app'])
+    schema = rng.choice(['partition', 'cellalloc', 'app', 'server', 'cell'])
     spec = specs[schema]
     f = rng.choice(spec)
     vs = list(f['vs']) + list(extra[schema].get(f['k'], []))
